@@ -94,6 +94,9 @@ def gen_cont(rng, stateful=False, rich=False):
         sc["ccm"] = [[[0.7, 0.3], [0.2, 0.8]] for n in range(N)]
     if rng.random() < 0.2:
         sc["baulk"] = True
+    if rng.random() < 0.25 and any(isinstance(x, int) and x >= 2 for x in sc["servers"]):
+        # server priority function: "busy" ranks free servers by busy time, "util" by busy time / total time
+        sc["spf"] = rng.choice(["busy", "busy", "util"])
     if stateful:
         # objects with internal state: ownership matters (C15)
         k = rng.randrange(K)
@@ -254,6 +257,14 @@ def build_cont(sc):
     if sc.get("cct"):
         kw["class_change_time_distributions"] = {names[a]: {names[b]: mk_dist(ciw, sc["cct"][a][b]) for b in range(K)}
                                                  for a in range(K)}
+    if sc.get("spf"):
+        def by_busy(srv, ind):
+            return srv.busy_time
+
+        def by_util(srv, ind):
+            return srv.busy_time / srv.total_time if srv.total_time else 0.0
+        f = by_busy if sc["spf"] == "busy" else by_util
+        kw["server_priority_functions"] = [(f if isinstance(x, int) else None) for x in sc["servers"]]
     if sc.get("baulk"):
         def bf(n, Q=None, next_ind=None, next_node=None):
             return min(1.0, n / 6.0)
